@@ -249,3 +249,21 @@ Print Assumptions T18i_kkt_check_eps_optimal.
 Example T18i_example :
   kkt_checkQ [((3 # 2)%Q, (1 # 2)%Q, 1%Q); (0%Q, (1 # 4)%Q, 1%Q)] (3 # 2) (1 # 2) (1 # 1000) (1 # 1000) = true.
 Proof. vm_compute. reflexivity. Qed.
+
+(* T18j. lower_bound_dual_variable (translated on this run, four variants) is exactly the infimum of the admissible
+   dual variables of the chosen alternatives, given as the list of their (mu_k, eps_k): lam is above the bound
+   iff lam > 0 (GammaProfile, Translated, Generalized) resp. lam > mu_k + eps_k/scale for every chosen k
+   (NonMonotonic -- in particular NEGATIVE dual variables are inside the bracket when every mu_k + eps_k/scale
+   is negative: a budget beyond the satiation point). *)
+Theorem T18j_lower_bound_exact : forall v scale l lam,
+  Rbar_lt (code_lb v scale l) (Finite lam)
+  <-> (v <> VN -> 0 < lam) /\ Forall (fun me => lam_ok v scale (fst me) (snd me) lam) l.
+Proof. exact lower_bound_exact. Qed.
+Print Assumptions T18j_lower_bound_exact.
+
+(* non-vacuity: two chosen NonMonotonic goods with mu + eps/scale = -1 and -3/2: the dual variable -1/2 is admissible *)
+Example T18j_example : Rbar_lt (code_lb VN (Some 2) [(-2, 2); (-1, -1)]) (Finite (- (1 / 2))).
+Proof.
+  apply lower_bound_exact. split; [intros C; contradiction C; reflexivity|].
+  repeat constructor; unfold lam_ok, sc_eps; simpl; lra.
+Qed.
